@@ -272,7 +272,7 @@ func c01Exec(c fw.Case) *fw.Result {
 		if c.Int("noheader") == 1 {
 			f.Header = nil
 		}
-		key := fmt.Sprintf("C01/random/seed%d/procs%d/chunk%d", c.Seed, procs, c.Int("chunk"))
+		key := fmt.Sprintf("C01/random/profile%d/hdr%v", c.Int("profile"), c.Int("noheader") == 0)
 		c01Check(res, f, procs, int(c.Int("chunk")), key)
 		nontrivial := 0
 		for _, b := range f.Blocks {
@@ -391,9 +391,10 @@ func init() {
 			"plain (non-dense) Node groups and zero-node dense groups are excluded: the first is unsupported by the library (see C06), the second serialises to an empty message no writer emits",
 			"the writer's own encoder (protowire varint/zigzag/packed, compress/zlib) is trusted",
 		},
-		Cases:   c01Cases,
-		Exec:    c01Exec,
-		Workers: 12,
+		Cases:            c01Cases,
+		Exec:             c01Exec,
+		CrashIsViolation: true,
+		Workers:          12,
 	})
 	_ = osm.TypeNode
 }
